@@ -157,9 +157,9 @@ func checkWalkState(r *evid.Run, d *DocState, concs []*tok.Conc) {
 var traceSpecC05 = traceSpec{Ops: []string{"walk"}, Params: genParams{MaxNodes: 50, MaxDepth: 8, MaxRoots: 4, NChunks: 16, Hostile: true}, NQuick: 150, NThorough: 1500}
 
 func checkC05(r *evid.Run) {
-	cfg, nconc, timeout := "MC_C05_quick.cfg", 3, 5*time.Minute
+	cfg, nconc, timeout := "MC_C05_quick.cfg", 4, 5*time.Minute
 	if r.Tier == "thorough" {
-		cfg, nconc, timeout = "MC_C05_thorough.cfg", 5, 20*time.Minute
+		cfg, nconc, timeout = "MC_C05_thorough.cfg", 7, 30*time.Minute
 	}
 	concs := tok.Concs(r.Seed, nconc, allChunkIDs)
 	runDocModel(r, modelRun{Module: "MC_C05", Cfg: cfg, Timeout: timeout}, func(d *DocState) {
